@@ -127,6 +127,10 @@ pub fn run(data: &[u8], ctx: &mut Ctx) -> Outcome {
     let ra = src.below(40);
     let rb = ra + src.below(60);
     let p_text = format!("salted-pred-{}", src.below(10));
+    let plain_present = src.chance(96);
+    if plain_present && (op == 5 || op == 7) {
+        ctx.class("salted-add-with-plain-present");
+    }
     let o_val = src.below(1000) as u64;
     let mut seeded = SeededRandomNumberGenerator::new([src.u64() | 1, 2, 3, 4]);
 
@@ -193,6 +197,15 @@ pub fn run(data: &[u8], ctx: &mut Ctx) -> Outcome {
                 break;
             }
             5 | 7 => {
+                // sometimes the plain (p, o) assertion is already there: the salted one is a different
+                // element (other digest) and must still be added
+                let (e, m) = if plain_present {
+                    let e2 = e.add_assertion(p_text.as_str(), o_val);
+                    let m2 = bridge::read_out(&e2).unwrap();
+                    (e2, m2)
+                } else {
+                    (e.clone(), m.clone())
+                };
                 let r = if op == 5 {
                     nopanic!(ctx, e.add_assertion_salted(p_text.as_str(), o_val, true), "salted", &key)
                 } else {
@@ -202,7 +215,11 @@ pub fn run(data: &[u8], ctx: &mut Ctx) -> Outcome {
                 let rm = tryp!(ctx, rm, "salted", &key);
                 // found by its predicate, exactly one
                 let found = nopanic!(ctx, r.assertions_with_predicate(p_text.as_str()), "salted", &key);
-                check!(ctx, found.len() == 1, "salted", &format!("{}/lookup", key), "the salted assertion is found {} times by its predicate", found.len());
+                let expect_found = if plain_present { 2 } else { 1 };
+                check!(ctx, found.len() == expect_found, "salted", &format!("{}/lookup", key), "after a salted add {} assertions are found by the predicate, expected {} (plain one present before: {})", found.len(), expect_found, plain_present);
+                let salted_one = found.iter().find(|x| x.is_node()).cloned();
+                check!(ctx, salted_one.is_some(), "salted", &format!("{}/shape", key), "no assertion carrying a salt was added");
+                let found = vec![salted_one.unwrap()];
                 let fm = tryp!(ctx, bridge::read_out(&found[0]), "readout", "C17/readout");
                 let plain = M::assertion(M::text(&p_text), M::leaf_item(&cbor::Item::U(o_val)));
                 match &fm {
